@@ -1,5 +1,7 @@
 #!/bin/bash
 # usage: seedtest.sh <seed-dir-name> <srcdir-with-OUT> "<checks to run, e.g. C04 C01>"
+# PHASE=confirm: only the scratch-worktree confirmation; PHASE=checks: only the check runs (appended to confirm.txt).
+# RELEASE_DEMO=1: also run the demo under --release (round 10: changes that misbehave only in the optimised build).
 # Confirms a seeded change in a fresh scratch worktree of /repo HEAD (compiles, upstream suite passes,
 # demo fails with / passes without), then applies it to /repo, runs the named checks, and undoes it.
 set -u
@@ -8,16 +10,19 @@ DEST=/verif/seeded/$NAME
 mkdir -p $DEST
 cp $SRC/OUT/patch.diff $SRC/OUT/meta.json $DEST/ 2>/dev/null
 cp $SRC/OUT/demo.rs $DEST/demo.rs 2>/dev/null
+R=$DEST/confirm.txt
+if [ "${PHASE:-both}" != "checks" ]; then
 WT=/tmp/seedchk-$NAME
 export CARGO_TARGET_DIR=/tmp/seedchk-target
 git -C /repo worktree remove --force $WT 2>/dev/null
 git -C /repo worktree add -q --detach $WT HEAD || exit 2
 cd $WT
-R=$DEST/confirm.txt; : > $R
+: > $R
 if ! git apply --check $DEST/patch.diff 2>>$R; then echo "PATCH DOES NOT APPLY to current /repo HEAD" | tee -a $R; git -C /repo worktree remove --force $WT; exit 3; fi
 mkdir -p tests; cp $DEST/demo.rs tests/demo.rs
 echo "== demo WITHOUT the change" >> $R
 cargo test --offline --test demo 2>&1 | grep -E '^test result|error' | tee -a $R
+if [ -n "${RELEASE_DEMO:-}" ]; then echo "== demo WITHOUT the change (--release)" >> $R; cargo test --offline --release --test demo 2>&1 | grep -E '^test result|error' | tee -a $R; fi
 git apply $DEST/patch.diff
 echo "== build with --features verif" >> $R
 cargo build --offline --features verif 2>&1 | grep -E '^error|Finished' | tee -a $R
@@ -25,9 +30,12 @@ echo "== upstream suite WITH the change" >> $R
 cargo test --offline --lib 2>&1 | grep -E '^test result' | tee -a $R
 echo "== demo WITH the change" >> $R
 cargo test --offline --test demo 2>&1 | grep -E '^test result|error' | tee -a $R
+if [ -n "${RELEASE_DEMO:-}" ]; then echo "== demo WITH the change (--release)" >> $R; cargo test --offline --release --test demo 2>&1 | grep -E '^test result|error' | tee -a $R; fi
 cd /verif
 git -C /repo worktree remove --force $WT
+fi
 # run the checks against /repo with the change applied
+if [ -z "$CHECKS" ] || [ "${PHASE:-both}" = "confirm" ]; then exit 0; fi
 unset CARGO_TARGET_DIR
 if ! git -C /repo diff --quiet; then echo "/repo is dirty, refusing"; exit 4; fi
 git -C /repo apply $DEST/patch.diff
